@@ -466,7 +466,16 @@ func vbRunBytes(it vbItem, w *vbWorld, st *vbStats, sink vbSink, deadline time.T
 		own := vbRefPrefix(r.Kind)
 		seen := map[[20]byte]bool{}
 		n := 0
-		vbByteOps(w.Honest[i], it.Short2, func(op string, data []byte) {
+		short2 := false // all strings of length <= 2: once per type (first served identifier)
+		if it.Short2 {
+			for _, j := range w.byKind[r.Kind] {
+				if w.Honest[j] != nil {
+					short2 = j == i
+					break
+				}
+			}
+		}
+		vbByteOps(w.Honest[i], short2, func(op string, data []byte) {
 			if !complete {
 				return
 			}
